@@ -2,6 +2,7 @@
 and part 3 (glue: the bytes returned by the encoder are the bytes that reach BuildResult.code)."""
 import re
 
+import facts as F
 import encoder as E
 import grammar
 import graph as G
@@ -344,3 +345,38 @@ def glue(P, rep):
                 ok4 = r[0] in payload and inner[-1:] == [("field", f2.index("code"))] and all(x in (("downcast", 0), ("field", 0)) for x in inner[:-1])
     rep.ob("C01.glue|code->BuildResult", ok4, "BuildResult.code is moved out of pass 2's result unchanged" if ok4 else
            "BuildResult.code is not the code vector pass 2 returned")
+
+
+
+def reduced_core_devices(P, rep):
+    """Which devices get the reduced-core encodings (one-word lds/sts, r16..r31): exactly those whose shipped part-definition file
+    declares the reduced core (`#pragma AVRPART CORE CORE_VERSION AVR8L_*`) must carry the Avr8l flag in the device table."""
+    import glob
+    import os
+    import re
+    import devices
+    rows, problems = devices.table(P)
+    if rows is None:
+        rep.unprovable("C01.core|table", problems)
+        return
+    for pr in problems:
+        rep.unprovable("C01.core|table", pr)
+    n = nrc = 0
+    for f in sorted(glob.glob(os.path.join(F.REPO, "includes", "*def.inc"))):
+        text = open(f, encoding="latin-1").read()
+        m = re.search(r"(?im)^\s*\.device\s+(\S+)", text)
+        c = re.search(r"(?im)^\s*#pragma\s+AVRPART\s+CORE\s+CORE_VERSION\s+(\S+)", text)
+        if not m or not c or m.group(1) not in rows:
+            continue
+        dev, core = m.group(1), c.group(1)
+        n += 1
+        reduced = core.upper().startswith("AVR8L")
+        nrc += reduced
+        has = "Avr8l" in rows[dev]["disable_opts"]
+        rep.ob("C01.core|%s" % dev, has == reduced,
+               "%s: core %s in %s, table row %s the reduced core" % (dev, core, os.path.basename(f), "selects" if has else "does not select") if has == reduced else
+               "%s is a %s core according to %s, but its table row %s the reduced-core encodings (one-word lds/sts, r16..r31 only)" % (
+                   dev, core, os.path.basename(f), "selects" if has else "does not select"),
+               detail={"file": os.path.basename(f), "core": core, "flags": rows[dev]["disable_opts"]})
+    rep.floor("devices with a shipped part-definition file naming their core", n, 44)
+    rep.floor("of them reduced cores", nrc, 2)
